@@ -18,6 +18,18 @@ seqgen.SCALAR_TARGET_RATE = 0.25
 seqgen.SHORTHAND_RATE = 0.35
 
 
+def indep_rise(ch):
+    """rise time from the documented formula: int(0.48 / mod_bandwidth * 1e3), 0 without a bandwidth"""
+    bw = ch.mod_bandwidth
+    return int(0.48 / bw * 1e3) if bw else 0
+
+
+def indep_phase_jump(ch):
+    """phase-jump time from the dataclass fields: the custom value when defined, else two rise times"""
+    c = ch.custom_phase_jump_time
+    return int(c) if c is not None else 2 * indep_rise(ch)
+
+
 class SeqProp(PropCheck):
     focus = None
     shard = 60
